@@ -30,32 +30,38 @@ msg_cb(tpt_p tpt, void *udata) {
 }
 
 static void
-do_sends(int sender, tpt_p self) {
-	int k, rc, dst;
+do_one(int k, tpt_p self) {
+	int rc, dst;
 	tpt_p d;
 
+	dst = cur->sends[k].dst;
+	if (dst < 0) {
+		d = self;
+		s_realdst[k] = (int)tpt_get_num(self);
+	} else if (dst == cur->W) {
+		d = tp_thread_get_pvt(tpc_tp);
+		s_realdst[k] = cur->W;
+	} else {
+		d = tp_thread_get(tpc_tp, (size_t)dst);
+		s_realdst[k] = dst;
+	}
+	s_tid[k] = sc_self();
+	s_begin[k] = tpc_add(E_CALL_BEGIN, -1, 100 + k, (long)cur->sends[k].flags, (long)s_realdst[k]);
+	if (cur->faults)
+		sc_fault_mask = SC_F_WRITE;
+	rc = tpt_msg_send(d, NULL, cur->sends[k].flags, msg_cb, (void *)(intptr_t)(100 + k));
+	sc_fault_mask = 0;
+	s_rc[k] = rc;
+	s_ret[k] = tpc_add(E_CALL_RET, -1, 100 + k, (long)rc, 0);
+}
+
+static void
+do_sends(int sender, tpt_p self) {
+	int k;
+
 	for (k = 0; k < cur->nsends; k ++) {
-		if (cur->sends[k].sender != sender)
-			continue;
-		dst = cur->sends[k].dst;
-		if (dst < 0) {
-			d = self;
-			s_realdst[k] = (int)tpt_get_num(self);
-		} else if (dst == cur->W) {
-			d = tp_thread_get_pvt(tpc_tp);
-			s_realdst[k] = cur->W;
-		} else {
-			d = tp_thread_get(tpc_tp, (size_t)dst);
-			s_realdst[k] = dst;
-		}
-		s_tid[k] = sc_self();
-		s_begin[k] = tpc_add(E_CALL_BEGIN, -1, 100 + k, (long)cur->sends[k].flags, (long)s_realdst[k]);
-		if (cur->faults)
-			sc_fault_mask = SC_F_WRITE;
-		rc = tpt_msg_send(d, NULL, cur->sends[k].flags, msg_cb, (void *)(intptr_t)(100 + k));
-		sc_fault_mask = 0;
-		s_rc[k] = rc;
-		s_ret[k] = tpc_add(E_CALL_RET, -1, 100 + k, (long)rc, 0);
+		if (cur->sends[k].sender == sender)
+			do_one(k, self);
 	}
 }
 
@@ -76,13 +82,64 @@ detach_cb(tpt_p tpt, void *udata) {
 	tp_thread_dettach(tpt);
 }
 
+/* ---- backlog scenarios: the destination is kept busy (gates) so that its queue holds a batch and
+ * newer messages when a pool thread sends from inside a message callback. ---- */
+static volatile int gate1, gate2;
+
+static void
+gate_cb(tpt_p tpt, void *udata) {
+	(void)udata;
+	sc_log("gate callback entered on thread %d", (int)tpt_get_num(tpt));
+	sc_gate_wait(&gate1, "gate1");
+}
+
+static void
+bl_seed_cb(tpt_p tpt, void *udata) {
+	(void)udata;
+	sc_log("seed callback entered on thread %d", (int)tpt_get_num(tpt));
+	sc_gate_wait(&gate2, "gate2");
+	do_sends(10 + (int)tpt_get_num(tpt), tpt);
+}
+
 static void msg_scenario(int idx);
+static void check_sends(const mvar_t *v);
+static void backlog_scenario(int idx);
 #include "c05_variants.h"
+
+static void
+backlog_scenario(int idx) {
+	const mvar_t *v = &variants[idx];
+	int k, rc, n = 0;
+	tpt_p t0;
+
+	cur = v;
+	for (k = 0; k < MAXS; k ++) { s_rc[k] = -12345; s_begin[k] = s_ret[k] = -1; s_tid[k] = -1; s_realdst[k] = -1; }
+	tpc_up(v->W, 0);
+	t0 = tp_thread_get(tpc_tp, 0);
+	gate1 = gate2 = 0;
+	rc = tpt_msg_send(t0, NULL, 0, gate_cb, NULL);
+	if (0 != rc) sc_fail("harness", "gate send rc=%d", rc);
+	sc_wait_quiescent();			/* thread 0 is parked inside the gate callback */
+	rc = tpt_msg_send(t0, NULL, 0, bl_seed_cb, NULL);
+	if (0 != rc) sc_fail("harness", "seed send rc=%d", rc);
+	for (k = 0; k < v->nsends; k ++) {	/* first half of the external sender's messages: same batch as the seed */
+		if (1 == v->sends[k].sender && n < 2) { do_one(k, NULL); n ++; }
+	}
+	gate1 = 1;
+	sc_wait_quiescent();			/* thread 0 read the batch and is parked inside the seed callback */
+	n = 0;
+	for (k = 0; k < v->nsends; k ++) {	/* the rest: newer messages, still in the pipe */
+		if (1 == v->sends[k].sender && ++ n > 2) do_one(k, NULL);
+	}
+	gate2 = 1;
+	sc_wait_quiescent();
+	check_sends(v);
+}
 
 static void
 msg_scenario(int idx) {
 	const mvar_t *v = &variants[idx];
-	int k, j, i, rc, used[32], cnt, ev, sync;
+	int k, i, rc, used[32];
 	pthread_t pa, pb;
 	int have_a = 0, have_b = 0;
 
@@ -111,6 +168,12 @@ msg_scenario(int idx) {
 	if (have_a) pthread_join(pa, NULL);
 	if (have_b) pthread_join(pb, NULL);
 	sc_wait_quiescent();
+	check_sends(v);
+}
+
+static void
+check_sends(const mvar_t *v) {
+	int k, j, i, cnt, ev, sync;
 
 	/* ---------------- oracle ---------------- */
 	for (k = 0; k < v->nsends; k ++) {
